@@ -683,6 +683,12 @@ impl Model {
                 Ok(())
             }
             Out::Err(kind, msg) => {
+                // an address occupied by a substituted dangling link / directory (harness damage)
+                // can make the link creation fail: an I/O error is a truthful answer there
+                let occupied_by_junk = matches!(prev, Some(CState::Dangling) | Some(CState::Dir));
+                if occupied_by_junk && matches!(kind, ErrKind::Io { .. }) {
+                    return Ok(());
+                }
                 if must_succeed {
                     return Err(format!("{what}: failed: {kind:?} {msg}"));
                 }
